@@ -3,6 +3,7 @@ import NibabelModel.Lemmas.C03
 import NibabelModel.Lemmas.C03_EcatMain
 import NibabelModel.Lemmas.C03_Minc
 import NibabelModel.Lemmas.C03_Parrec
+import NibabelModel.Lemmas.C03_Afni
 import NibabelModel.Generated.C03Parrec
 import NibabelModel.Props.C06
 /-! Props/C03 — array proxies: scaling applied pointwise; partial reads equal slicing.
@@ -12,7 +13,9 @@ open Nb Nb.C06
 
 /-! ### scaling is pointwise, so it commutes with every gather -/
 
-/-- Indexing commutes with pointwise scaling by (broadcast) per-element parameters: gathering the
+/-- (DEFINITIONAL GLUE: `List.map`/`zipWith` bookkeeping, used by the theorems below; no content of its
+    own about the code.)
+    Indexing commutes with pointwise scaling by (broadcast) per-element parameters: gathering the
     elements `src` of the scaled array is the same as scaling the gathered raw elements with the
     parameters gathered BY THE SAME INDEX.  (`A`, `S`, `I`: raw array, slope array, intercept array
     as functions of the element number; `f` arbitrary.) -/
@@ -33,7 +36,9 @@ example : [2, 0].map (fun q => (fun (x s i : Nat) => x * s + i) (q + 10) (q + 1)
 def scaledElem {σ ρ β} (f : ρ → σ → σ → β) (raw : Int → ρ) (p : Params σ) (q : Nat) : β :=
   f (raw (q : Int)) p.slope p.inter
 
-/-- `np.asarray(proxy)` holds, at element number `q`, the scaled stored element `q` — the whole
+/-- (DEFINITIONAL GLUE: unfolds the model of the whole-array path; it fixes the numbering the other
+    theorems speak in.)
+    `np.asarray(proxy)` holds, at element number `q`, the scaled stored element `q` — the whole
     array path, unconditional. -/
 theorem proxyArray_eq {σ ρ β} (f : ρ → σ → σ → β) (raw : Int → ρ) (h : Heuristic) (p : Params σ) :
     proxyArray f raw h p = .ok (p.shape, (List.range p.shape.prod).map (scaledElem f raw p)) := by
@@ -122,9 +127,56 @@ theorem frozen_params (o : Order) (h : Hdr) (ops : List HdrOp) :
 example : ((World.mk ⟨[2, 3], 2, 352, some 2, none⟩ (proxyOfHdr .F ⟨[2, 3], 2, 352, some 2, none⟩)).run
     [.setShape [3, 3], .setSlopeInter (some 5) (some 5)]).hdr ≠ ⟨[2, 3], 2, 352, some 2, none⟩ := by decide
 
+/-! ### frozen parameters with header aliasing expressed -/
+
+theorem Heap.run_proxy (w : Heap) (ops : List (Nat × HdrOp)) : (w.run ops).proxy = w.proxy := by
+  induction ops generalizing w with
+  | nil => rfl
+  | cons op ops ih => simp only [Heap.run, List.foldl_cons] at ih ⊢; rw [ih]; rfl
+
+/-- READS USE THE COPIES.  Whatever header operations (set_data_shape / set_data_dtype / set_data_offset /
+    set_slope_inter) are applied afterwards to ANY header object — in particular to the very object the
+    proxy was built from, which the proxy still references — every read `proxy[idx]` (any index, any
+    scaling function) returns what it returned right after construction, namely the read with the
+    parameters the header had at construction time. -/
+theorem frozen_reads {ρ β} (f : ρ → Int → Int → β) (raw : Int → ρ) (h : Heuristic) (o : Order)
+    (hdrs : List Hdr) (ref : Nat) (ops : List (Nat × HdrOp)) (idx : List IdxItem) :
+    ((newProxy o hdrs ref).run ops).read f raw h idx = (newProxy o hdrs ref).read f raw h idx ∧
+    (newProxy o hdrs ref).read f raw h idx = getScaled f raw h (proxyOfHdr o (hdrs.getD ref default)) idx ∧
+    ((newProxy o hdrs ref).run ops).proxy.hdrRef = ref := by
+  refine ⟨?_, rfl, ?_⟩
+  · simp only [Heap.read, Heap.readParams, Heap.run_proxy]
+  · rw [Heap.run_proxy]; rfl
+
+/-- example world: two equal header objects, the proxy built from the first -/
+def exHdr : Hdr := ⟨[2, 3], 2, 352, some 2, some 1⟩
+def exW : Heap := newProxy .F [exHdr, exHdr] 0
+def exF : Int → Int → Int → Int := fun x s i => x * s + i
+
+/-- The ALIASING VARIANT (keep the reference, ask the header when reading) is observably different:
+    after `set_slope_inter` / `set_data_shape` / `set_data_offset`+`set_data_dtype` on the header the
+    proxy was built from, its reads / read parameters change, while the code's do not. -/
+theorem frozen_alias_counterexample :
+    -- editing the header the proxy was built from: the aliasing variant changes its answer …
+    (exW.run [(0, .setSlopeInter (some 5) (some 0))]).readAlias .F exF id (thresholdHeuristic 256) [.int 1]
+      ≠ exW.readAlias .F exF id (thresholdHeuristic 256) [.int 1] ∧
+    (exW.run [(0, .setShape [3, 2])]).readAlias .F exF id (thresholdHeuristic 256) [.int 1]
+      ≠ exW.readAlias .F exF id (thresholdHeuristic 256) [.int 1] ∧
+    (exW.run [(0, .setOff 360), (0, .setIsz 4)]).readParamsAlias .F ≠ exW.readParamsAlias .F ∧
+    (exW.run [(0, .setOff 360), (0, .setIsz 4)]).readParams = exW.readParams ∧
+    -- … the code (copies) does not, and before any edit both agree
+    (exW.run [(0, .setSlopeInter (some 5) (some 0)), (0, .setShape [3, 2]), (0, .setOff 360), (0, .setIsz 4)]).read
+        exF id (thresholdHeuristic 256) [.int 1] = .ok ([3], [3, 7, 11]) ∧
+    exW.readAlias .F exF id (thresholdHeuristic 256) [.int 1] = exW.read exF id (thresholdHeuristic 256) [.int 1] ∧
+    -- editing ANOTHER (equal) header object changes nothing even for the aliasing variant
+    (exW.run [(1, .setShape [3, 2])]).readAlias .F exF id (thresholdHeuristic 256) [.int 1]
+      = exW.readAlias .F exF id (thresholdHeuristic 256) [.int 1] := by
+  decide
+
 /-! ### AFNI -/
 
-/-- Per-sub-brick scaling: in a `(…, T)` array stored in F order with `P` elements per sub-brick,
+/-- (ARITHMETIC CORE of `afni_scale_alongside`, which states the pairing through the model for every index.)
+    Per-sub-brick scaling: in a `(…, T)` array stored in F order with `P` elements per sub-brick,
     element `e` of sub-brick `t` is paired by `scaling[slicer]` with factor slot `t`; hence
     (`afniScaleSlots`) every output element of `proxy[idx]` is paired with the factor of the
     sub-brick its source element lies in. -/
@@ -133,7 +185,9 @@ theorem afni_scaling_per_subbrick (P e t : Nat) (he : e < P) : (e + P * t) / P =
 
 example : (3 + 4 * 2) / 4 = 2 := by decide
 
-/-- A zero `BRICK_FLOAT_FACS` entry means "this sub-brick is not scaled" (factor one), a non-zero
+/-- (DEFINITIONAL GLUE: restates the model `afniScaling` of `AFNIHeader.get_data_scaling`, which is tied
+    to the code by the `afni` correspondence stream; the theorem with content is `afni_scale_alongside`.)
+    A zero `BRICK_FLOAT_FACS` entry means "this sub-brick is not scaled" (factor one), a non-zero
     entry is used as is — provided at least one entry is non-zero; when all are zero (or the
     attribute is absent) there is no scaling at all. -/
 theorem afni_zero_factor_means_one {σ} (isZero : σ → Bool) (one : σ) (nvol : Nat) (fs : List σ)
@@ -145,11 +199,32 @@ theorem afni_zero_factor_means_one {σ} (isZero : σ → Bool) (one : σ) (nvol 
       | none => one), by simp [afniScaling, hnz]; intro a _; rfl, ?_⟩
   simp [ht, hv]
 
+/-- (DEFINITIONAL GLUE, see `afni_zero_factor_means_one`.) All factors zero: no scaling at all. -/
 theorem afni_all_zero_no_scaling {σ} (isZero : σ → Bool) (one : σ) (nvol : Nat) (fs : List σ)
     (hz : fs.all isZero = true) : afniScaling isZero one nvol (some fs) = none := by
   simp [afniScaling, hz]
 
 example : afniScaling (· == 0) 1 3 (some [0, 5, 0]) = some [1, 5, 1] := by decide
+
+/-- SUB-BRICK FACTORS ARE SLICED ALONGSIDE THE DATA.  `AFNIArrayProxy._get_scaled` broadcasts the
+    factor vector to the data shape and indexes it with the same index as the data (`afniScaleSlotsB`,
+    NumPy indexing of the structurally built broadcast array `afniBroadcast`).  For every basic index
+    on which NumPy indexing succeeds — ints and slices of any sign on every axis incl. the sub-brick
+    axis, Ellipsis, new axes anywhere, also AFTER the sub-brick axis — output element `k`, whose source
+    voxel is stored element `src[k]`, is multiplied by the factor of sub-brick `src[k] / P`
+    (`P = ∏ shape[:-1]` voxels per sub-brick), which is a real sub-brick; and the arithmetic short form
+    `afniScaleSlots` used before is the same function. -/
+theorem afni_scale_alongside (shape : List Nat) (idx : List IdxItem) (hne : shape ≠ [])
+    (hv : ∀ s, IdxItem.slice s ∈ idx → s.Valid) (r : List Nat × List Nat)
+    (hnp : npIndex idx shape .F = .ok r) :
+    afniScaleSlotsB shape idx = .ok (r.1, r.2.map (· / shape.dropLast.prod)) ∧
+    afniScaleSlots shape idx = afniScaleSlotsB shape idx ∧
+    ∀ q ∈ r.2, q / shape.dropLast.prod < shape.getLast?.getD 0 :=
+  afni_scale_alongside' shape idx hne hv r hnp
+
+example : npIndex [.int 1, .ellipsis, .slice ⟨none, none, some (-2)⟩, .newaxis] [2, 1, 1, 3] .F = .ok ([1, 1, 2, 1], [5, 1]) ∧
+    afniScaleSlotsB [2, 1, 1, 3] [.int 1, .ellipsis, .slice ⟨none, none, some (-2)⟩, .newaxis] = .ok ([1, 1, 2, 1], [2, 0]) ∧
+    afniScaleSlotsB [2, 1, 1, 3] [.ellipsis, .int 1, .newaxis] = .ok ([2, 1, 1, 1], [1, 1]) := by decide
 
 /-! ### PAR/REC -/
 
@@ -286,6 +361,60 @@ theorem getitem_eq_index_of_array_total {σ ρ β} (f : ρ → σ → σ → β)
 example : getScaled (fun (x s i : Int) => x * s + i) id (thresholdHeuristic 256)
     (⟨[2, 3], 2, 352, .F, 2, 1⟩ : Params Int) [.int 1, .slice ⟨none, none, some (-1)⟩] =
     .ok ([3], [11, 7, 3]) := by decide
+
+/-! ### reshape, index level -/
+
+/-- `proxy.reshape(s)[idx] = np.asarray(proxy).reshape(s, order=proxy.order)[idx]` for EVERY basic index
+    (non-zero slice steps), up to the kind of exception.  Right-hand side: NumPy indexing of an array
+    of shape `s` whose element number `q` (in the proxy's memory order) is element number `q` of
+    `np.asarray(proxy)` — `scaledElem f raw p q` by `proxyArray_eq` — which is what NumPy's
+    `reshape(order=…)` means.  The reshaped proxy scales with the ORIGINAL slope and intercept
+    (`scaledElem … p`, not `p'`), reads from the original offset with the original item size and
+    memory order; and the whole arrays enumerate the same elements. -/
+theorem reshape_getitem_eq_reshaped_array {σ ρ β} (f : ρ → σ → σ → β) (raw : Int → ρ) (k : Nat)
+    (p p' : Params σ) (shape : List Int) (hr : reshape p shape = .ok p') (hisz : 0 < p.isz) :
+    (proxyArray f raw (thresholdHeuristic k) p').map (·.2) = (proxyArray f raw (thresholdHeuristic k) p).map (·.2) ∧
+    ∀ idx : List IdxItem, (∀ s, IdxItem.slice s ∈ idx → s.Valid) →
+      (getScaled f raw (thresholdHeuristic k) p' idx).toOption =
+        ((npIndex idx p'.shape p.order).map (fun r => (r.1, r.2.map (scaledElem f raw p)))).toOption := by
+  obtain ⟨_, _, hi, ho, ha⟩ := reshape_same_elements f raw (thresholdHeuristic k) p p' shape hr
+  refine ⟨ha, fun idx hv => ?_⟩
+  have := getitem_eq_index_of_array_total f raw k p' idx (by omega) hv
+  rw [this, ho]
+  have hs : scaledElem f raw p' = scaledElem f raw p := by
+    unfold reshape at hr
+    cases hs : reshapeShape p.shape.prod shape with
+    | error e => simp [hs, bind, Except.bind] at hr
+    | ok s =>
+        simp only [hs, bind, Except.bind, pure, Except.pure, Except.ok.injEq] at hr
+        subst hr; rfl
+  rw [hs]
+
+example : (reshape (⟨[2, 3], 2, 352, .C, 2, 1⟩ : Params Int) [3, -1]).toOption.map
+    (fun p' => getScaled (fun (x s i : Int) => x * s + i) id (thresholdHeuristic 256) p' [.int (-1), .slice ⟨none, none, some (-1)⟩])
+    = some (.ok ([2], [11, 9])) := by decide
+
+/-- `reshape` is refused (`ValueError`) exactly when more than one dimension is `-1`, or the
+    (completed) shape has a negative entry or another number of elements — NumPy's rule for
+    `ndarray.reshape`. -/
+theorem reshape_fails_iff {σ} (p : Params σ) (shape : List Int) :
+    (∃ e, reshape p shape = .error e) ↔
+      (nUnknown shape > 1 ∨ ¬((resolveShape p.shape.prod shape).foldl (· * ·) 1 = (p.shape.prod : Int) ∧
+        (resolveShape p.shape.prod shape).all (0 ≤ ·))) := by
+  unfold reshape reshapeShape
+  by_cases h1 : nUnknown shape > 1
+  · simp [h1, bind, Except.bind]
+  · by_cases h2 : ((resolveShape p.shape.prod shape).foldl (· * ·) 1 = (p.shape.prod : Int) ∧
+        (resolveShape p.shape.prod shape).all (0 ≤ ·))
+    · simp only [h1, if_false, h2, and_self, if_true, bind, Except.bind, pure, Except.pure]
+      simp
+    · simp only [h1, if_false, h2, bind, Except.bind]
+      simp
+
+example : (∃ e, reshape (⟨[2, 3], 2, 0, .F, (), ()⟩ : Params Unit) [4, -1] = .error e) ∧
+    (∃ e, reshape (⟨[2, 3], 2, 0, .F, (), ()⟩ : Params Unit) [-1, -1] = .error e) ∧
+    reshape (⟨[2, 3], 2, 0, .F, (), ()⟩ : Params Unit) [-1, 2] = .ok ⟨[3, 2], 2, 0, .F, (), ()⟩ := by
+  refine ⟨⟨.value, by decide⟩, ⟨.value, by decide⟩, by decide⟩
 
 /-! ### PAR/REC, every slice order -/
 
